@@ -32,8 +32,8 @@ Code quirks that are modelled because they are what the code does:
   node sits in the state cache) `StateContext.GetTrieNode` panics (`Err.panicNotCopyable`);
 * `killValidator` / `shutdownValidator` do not check the provider type of the node they load (`xkind`: the harness
   does not drive that branch with an authorised caller; the model stops with `Err.crossKind`);
-* `zcnsc.StakePool` embeds `stakepool.StakePool` by value and inherits its `Save`: `StakePoolLock`/`Unlock` write the
-  INNER record layout, which `zcnsc.getStakePool` then reads as an empty pool (`SP.inner`, `viewSP`).
+* (until repo commit fc9e9de `zcnsc.StakePool` inherited `stakepool.StakePool.Save` and lock / unlock wrote a record
+  layout `zcnsc` could not read back; it now has its own `Save`, authorizer pools behave like all others.)
 Ids are naturals (the harness maps them to client ids); `order` lists the ids in the order of their hex form
 (`OrderedPoolIds`). Core-only.
 -/
@@ -97,7 +97,6 @@ structure SP where
   ratio        : F64            -- Settings.ServiceChargeRatio
   dead         : Bool           -- HasBeenKilled
   offers       : Nat            -- storagesc TotalOffers
-  inner        : Bool           -- authorizer records only: last written in the inner layout (see header)
 deriving DecidableEq, Repr, Inhabited
 
 structure Prov where
@@ -114,7 +113,7 @@ structure Cfg where
   minStake  : Kind → Nat   -- ValidationSettings.MinStake of the kind's contract
   maxStake  : Kind → Nat
   minLock   : Nat      -- stakepool.min_lock_period in seconds
-  spMinStake : Nat     -- min_stake_per_delegate copied into a new pool's Settings.MinStake
+  spMinStake : Kind → Nat   -- min_stake_per_delegate of the kind's contract, copied into a new pool's Settings.MinStake
 
 structure State where
   accts : Ledger.Accts
@@ -188,30 +187,14 @@ def slashFraction (sp : SP) (slash : F64) : Except Err SP :=
 def spKill (sp : SP) (slash : F64) : Except Err SP :=
   slashFraction { sp with dead := true } slash
 
-/-- what `zcnsc.getStakePool` decodes from a record written in the inner layout: every field at its zero value. -/
-def emptyRead : SP :=
-  { pools := [], reward := 0, wallet := none, maxDelegates := 0, minStake := 0, ratio := F64.zero,
-    dead := false, offers := 0, inner := true }
+def getSP (s : State) (k : Kind) (id : Id) : Option SP := kvGet s.sps (k, id)
 
-/-- the pool as the owning contract's reader sees it. -/
-def viewSP (k : Kind) (sp : SP) : SP :=
-  if k = .authorizer ∧ sp.inner = true then emptyRead else sp
-
-def getSP (s : State) (k : Kind) (id : Id) : Option SP :=
-  (kvGet s.sps (k, id)).map (viewSP k)
-
-/-- `Save(kind, id)` through `AbstractStakePool` (`stakepool.StakePool.Save`, the storagesc wrapper's `Save`,
-`MinerNode.Save`): authorizer records end up in the inner layout. -/
+/-- `Save(kind, id)` (`stakepool.StakePool.Save`, the storagesc and zcnsc wrappers' `Save`, `MinerNode.Save`). -/
 def putSP (s : State) (k : Kind) (id : Id) (sp : SP) : State :=
-  { s with sps := kvSet s.sps (k, id) { sp with inner := if k = .authorizer then true else sp.inner } }
+  { s with sps := kvSet s.sps (k, id) sp }
 
-/-- `zcnsc.(*StakePool).save` (wrapper layout). -/
-def putSPWrapped (s : State) (k : Kind) (id : Id) (sp : SP) : State :=
-  { s with sps := kvSet s.sps (k, id) { sp with inner := if k = .authorizer then false else sp.inner } }
-
-/-- the save of the kind's reward / collect path: `zcnsc` uses its own `save`, the others the generic one. -/
-def saveSP (s : State) (k : Kind) (id : Id) (sp : SP) : State :=
-  if k = .authorizer then putSPWrapped s k id sp else putSP s k id sp
+/-- the save of the kind's reward / collect path (`zcnsc` uses its lower-case `save`: same record). -/
+def saveSP (s : State) (k : Kind) (id : Id) (sp : SP) : State := putSP s k id sp
 
 def delSP (s : State) (k : Kind) (id : Id) : State :=
   { s with sps := kvDel s.sps (k, id) }
@@ -581,10 +564,16 @@ def register (cfg : Cfg) (s : State) (k : Kind) (pid wallet : Id) (maxDelegates 
   else if wallet = pid then .error .exists
   else
     let sp : SP := { pools := [], reward := 0, wallet := some wallet, maxDelegates := maxDelegates,
-                     minStake := cfg.spMinStake, ratio := ratio, dead := false, offers := 0, inner := false }
+                     minStake := cfg.spMinStake k, ratio := ratio, dead := false, offers := 0 }
     let s1 := putProv s pid { kind := k, shutDown := false, killed := false, hasData := false }
     let s2 := { s1 with sps := kvSet s1.sps (k, pid) sp }
     .ok (if k = .validator then { s2 with vpart := s2.vpart ++ [pid] } else s2)
+
+/-- the blobber stores data (`SavedData > 0`, what `commit_connection` brings about) or none. -/
+def setData (s : State) (pid : Id) (has : Bool) : Except Err State :=
+  match kvGet s.provs pid with
+  | none => .error .notFound
+  | some p => if p.kind ≠ .blobber then .error .wrongKind else .ok (putProv s pid { p with hasData := has })
 
 /-- a new allocation on two blobbers: each one's `TotalOffers` grows by `offer` (everything else an allocation does is
 outside this model). -/
